@@ -1,9 +1,13 @@
 package checks
 
 import (
+	"encoding/json"
 	"fmt"
 	"sort"
+	"strconv"
 	"strings"
+	"sync"
+	"time"
 
 	"github.com/golang/geo/s1"
 	"github.com/golang/geo/s2"
@@ -20,6 +24,7 @@ import (
 
 func init() {
 	Registry["C13"] = &Check{Level: "model_checking", QuickBudget: 120, ThoroughBudget: 1200, Run: runC13}
+	workers["c13job"] = c13JobWorker
 }
 
 // machine is one explicit-state search problem.
@@ -994,22 +999,96 @@ func runC13(c *core.Ctx) {
 		c13Replay(c)
 		return
 	}
-	installAccessHook()
-	searchDedup(c, c13IndexMachine(), core.Pick(c, 6, 8))
+	// The controlled scheduler allows one execution at a time per process, and the machines are
+	// independent of each other: each one is searched in its own worker process.
+	jobs := c13Jobs(c)
+	outs := make([]*core.CtxDump, len(jobs))
+	errs := make([]string, len(jobs))
+	sem := make(chan struct{}, c.Workers)
+	var wg sync.WaitGroup
+	remaining := 0
+	if !c.Deadline.IsZero() {
+		remaining = int(time.Until(c.Deadline).Seconds())
+	}
+	for i := range jobs {
+		wg.Add(1)
+		go func(i int) {
+			defer wg.Done()
+			sem <- struct{}{}
+			defer func() { <-sem }()
+			so, se, err := runWorkerProc("c13job", strconv.Itoa(i), c.Tier, strconv.Itoa(remaining))
+			for _, l := range strings.Split(so, "\n") {
+				if strings.HasPrefix(l, "C13OUT ") {
+					var d core.CtxDump
+					if json.Unmarshal([]byte(l[7:]), &d) == nil {
+						outs[i] = &d
+					}
+				}
+			}
+			if outs[i] == nil {
+				errs[i] = fmt.Sprintf("worker for machine job %d failed: %v\n%s\n%s", i, err, tail(so, 1500), tail(se, 3000))
+			}
+		}(i)
+	}
+	wg.Wait()
+	for i := range jobs {
+		if errs[i] != "" {
+			panic(core.HarnessError(errs[i]))
+		}
+		c.Import(outs[i])
+	}
+}
+
+type c13Job struct {
+	dedup bool
+	m     *machine
+	depth int
+}
+
+// c13Jobs lists the machines with their search mode and depth for the tier.
+func c13Jobs(c *core.Ctx) []c13Job {
+	jobs := []c13Job{{true, c13IndexMachine(), core.Pick(c, 6, 8)}}
 	for _, nv := range []int{8, 40, 100} {
-		searchDedup(c, c13LoopMachine(nv), core.Pick(c, 5, 7))
+		jobs = append(jobs, c13Job{true, c13LoopMachine(nv), core.Pick(c, 5, 7)})
 	}
-	searchDedup(c, c13LoopMachineAt(40, 90, 0), core.Pick(c, 5, 7))
-	searchDedup(c, c13LoopMachineAt(64, -90, 0), core.Pick(c, 4, 7))
+	jobs = append(jobs, c13Job{true, c13LoopMachineAt(40, 90, 0), core.Pick(c, 5, 7)}, c13Job{true, c13LoopMachineAt(64, -90, 0), core.Pick(c, 4, 7)})
 	for v := 0; v < 2; v++ {
-		searchDedup(c, c13PolygonMachine(v), core.Pick(c, 4, 6))
+		jobs = append(jobs, c13Job{true, c13PolygonMachine(v), core.Pick(c, 4, 6)})
 	}
-	searchAll(c, c13QueryMachine(false), core.Pick(c, 3, 4))
-	searchAll(c, c13QueryMachine(true), core.Pick(c, 3, 4))
-	searchAll(c, c13OtherQueriesMachine(), core.Pick(c, 3, 4))
-	searchAll(c, c13IndexTargetMachine(false), core.Pick(c, 3, 5))
-	searchAll(c, c13IndexTargetMachine(true), core.Pick(c, 3, 5))
-	searchAll(c, c13ResetMachine(), core.Pick(c, 5, 7))
+	jobs = append(jobs,
+		c13Job{false, c13QueryMachine(false), core.Pick(c, 3, 4)},
+		c13Job{false, c13QueryMachine(true), core.Pick(c, 3, 4)},
+		c13Job{false, c13OtherQueriesMachine(), core.Pick(c, 3, 4)},
+		c13Job{false, c13IndexTargetMachine(false), core.Pick(c, 3, 5)},
+		c13Job{false, c13IndexTargetMachine(true), core.Pick(c, 3, 5)},
+		c13Job{false, c13ResetMachine(), core.Pick(c, 5, 7)})
+	return jobs
+}
+
+// c13JobWorker: vcheck worker c13job <index> <tier> <seconds-left>
+func c13JobWorker(args []string) int {
+	if len(args) < 3 {
+		return 2
+	}
+	i, _ := strconv.Atoi(args[0])
+	secs, _ := strconv.Atoi(args[2])
+	c := core.NewCtx("C13", args[1], "model_checking", 0)
+	if secs > 0 {
+		c.Deadline = time.Now().Add(time.Duration(secs) * time.Second)
+	}
+	jobs := c13Jobs(c)
+	if i < 0 || i >= len(jobs) {
+		return 2
+	}
+	installAccessHook()
+	if jobs[i].dedup {
+		searchDedup(c, jobs[i].m, jobs[i].depth)
+	} else {
+		searchAll(c, jobs[i].m, jobs[i].depth)
+	}
+	b, _ := json.Marshal(c.Export())
+	fmt.Println("C13OUT " + string(b))
+	return 0
 }
 
 func c13Machines() []*machine {
